@@ -21,9 +21,10 @@ VARIABLES cfg,       \* [bpf, nfiles, last, req (requested blocks, 0 = not given
           cached,    \* power of the digitiser target deviation folded into the filterbank's CACHED deviation (must stay 0)
           gains,     \* sequence of powers of the target deviation used for each sub-block's custom deviation
           reads,     \* sequence of [file, index] of the input blocks consumed
-          nout       \* blocks written
+          nout,      \* blocks written
+          aborted    \* an interrupted attempt has taken place
 
-vars == <<cfg, rec, done, pc, blk, sub, inFile, inPos, cached, gains, reads, nout>>
+vars == <<cfg, rec, done, pc, blk, sub, inFile, inPos, cached, gains, reads, nout, aborted>>
 
 InBlocks(c) == c.bpf * (c.nfiles - 1) + c.last
 NumBlocks(c) == IF c.req = 0 THEN InBlocks(c) ELSE IF c.req < InBlocks(c) THEN c.req ELSE InBlocks(c)
@@ -32,24 +33,24 @@ Dig == IF rec = 1 THEN cfg.digitize ELSE IF cfg.second = "flip" THEN ~cfg.digiti
 
 Init == /\ rec = 1 /\ done = <<>>
         /\ cfg \in {c \in [bpf : BpfSet, nfiles : FilesSet, last : BpfSet, req : ReqSet, nsub : SubSet, digitize : BOOLEAN,
-                            second : {"none", "same", "flip"}] :
+                            second : {"none", "same", "flip"}, abort : BOOLEAN] :
                         c.last <= c.bpf /\ (c.nfiles = 1 => c.last = c.bpf)}   \* a single file defines blocks-per-file
         /\ pc = "begin" /\ blk = 0 /\ sub = 0 /\ inFile = -1 /\ inPos = 0
-        /\ cached = 0 /\ gains = <<>> /\ reads = <<>> /\ nout = 0
+        /\ cached = 0 /\ gains = <<>> /\ reads = <<>> /\ nout = 0 /\ aborted = FALSE
 
 Begin == /\ pc = "begin" /\ pc' = IF NumBlocks(cfg) > 0 THEN "open" ELSE "end"
-         /\ UNCHANGED <<cfg, rec, done, blk, sub, inFile, inPos, cached, gains, reads, nout>>
+         /\ UNCHANGED <<cfg, rec, done, blk, sub, inFile, inPos, cached, gains, reads, nout, aborted>>
 
 (* output file i is written while input file i is open (same blocks per file as the input) *)
 Open == /\ pc = "open"
         /\ inFile' = blk \div cfg.bpf /\ inPos' = 0 /\ pc' = "read"
-        /\ UNCHANGED <<cfg, rec, done, blk, sub, cached, gains, reads, nout>>
+        /\ UNCHANGED <<cfg, rec, done, blk, sub, cached, gains, reads, nout, aborted>>
 
 (* _read_next_block: skip the header region, read BLOCSIZE bytes: consumes exactly one framed block *)
 Read == /\ pc = "read"
         /\ reads' = Append(reads, [file |-> inFile, index |-> inPos])
         /\ inPos' = inPos + 1 /\ sub' = 0 /\ pc' = "sub"
-        /\ UNCHANGED <<cfg, rec, done, blk, inFile, cached, gains, nout>>
+        /\ UNCHANGED <<cfg, rec, done, blk, inFile, cached, gains, nout, aborted>>
 
 (* one sub-block: custom deviation = cached deviation * target deviation (digitiser on), computed afresh *)
 SubBlock == /\ pc = "sub" /\ sub < cfg.nsub
@@ -57,28 +58,36 @@ SubBlock == /\ pc = "sub" /\ sub < cfg.nsub
             /\ cached' = cached                      \* the cached array is not modified
             /\ sub' = sub + 1
             /\ pc' = IF sub + 1 < cfg.nsub THEN "sub" ELSE "write"
-            /\ UNCHANGED <<cfg, rec, done, blk, inFile, inPos, reads, nout>>
+            /\ UNCHANGED <<cfg, rec, done, blk, inFile, inPos, reads, nout, aborted>>
 
 Write == /\ pc = "write"
          /\ nout' = nout + 1 /\ blk' = blk + 1
          /\ pc' = IF blk + 1 >= NumBlocks(cfg) THEN "end"
                   ELSE IF (blk + 1) % cfg.bpf = 0 THEN "open" ELSE "read"
-         /\ UNCHANGED <<cfg, rec, done, sub, inFile, inPos, cached, gains, reads>>
+         /\ UNCHANGED <<cfg, rec, done, sub, inFile, inPos, cached, gains, reads, aborted>>
 
 (* a recording is over: remember its summary; the same backend may be asked to record once more (everything starts afresh
    except what the backend keeps: the filterbank's cached unit-noise deviation) *)
 Summary == [digitize |-> Dig, numBlocks |-> NumBlocks(cfg), reads |-> reads, gains |-> gains]
+(* the first attempt at the first recording is interrupted (the voltage source raises) while a block is being built:
+   record() propagates the failure; the next record() starts from the first input block again, like any other *)
+AbortAttempt ==
+    /\ cfg.abort /\ ~aborted /\ rec = 1 /\ pc = "sub" /\ Len(gains) = 1
+    /\ aborted' = TRUE
+    /\ pc' = "begin" /\ blk' = 0 /\ sub' = 0 /\ inFile' = -1 /\ inPos' = 0 /\ gains' = <<>> /\ reads' = <<>> /\ nout' = 0
+    /\ UNCHANGED <<cfg, rec, done, cached>>
+
 Again == /\ pc = "end" /\ rec = 1 /\ cfg.second # "none"
          /\ done' = Append(done, Summary) /\ rec' = 2
          /\ pc' = "begin" /\ blk' = 0 /\ sub' = 0 /\ inFile' = -1 /\ inPos' = 0 /\ gains' = <<>> /\ reads' = <<>> /\ nout' = 0
-         /\ UNCHANGED <<cfg, cached>>
+         /\ UNCHANGED <<cfg, cached, aborted>>
 Last == pc = "end" /\ (rec = 2 \/ cfg.second = "none")
 Emit == /\ EmitOn /\ Last
-        /\ PrintT(ToJson([cfg |-> cfg, recs |-> Append(done, Summary)]))
-        /\ pc' = "emitted" /\ UNCHANGED <<cfg, rec, done, blk, sub, inFile, inPos, cached, gains, reads, nout>>
+        /\ PrintT(ToJson([cfg |-> cfg, aborted |-> aborted, recs |-> Append(done, Summary)]))
+        /\ pc' = "emitted" /\ UNCHANGED <<cfg, rec, done, blk, sub, inFile, inPos, cached, gains, reads, nout, aborted>>
 Idle == (pc = "emitted" \/ (~EmitOn /\ Last)) /\ UNCHANGED vars
 
-Next == Begin \/ Open \/ Read \/ SubBlock \/ Write \/ Again \/ Emit \/ Idle
+Next == Begin \/ Open \/ Read \/ SubBlock \/ AbortAttempt \/ Write \/ Again \/ Emit \/ Idle
 Spec == Init /\ [][Next]_vars
 
 -----------------------------------------------------------------------------
